@@ -88,3 +88,28 @@ package jobqueuecontroller
 //@   ensures [C05] counted-on-success: result == nil ==> jwN == old(jwN) + 1 && jwOK[old(jwN)]
 //@        && (forall k string :: activejobstore.active(storeOf(store), k) == (k == string(rjc.UID) ? oldCount + 1 : old(activejobstore.active(storeOf(store), k))))
 //@   ensures [C05] log-append-only: forall i int :: i < old(jwN) ==> jwKind[i] == old(jwKind[i]) && jwObj[i] == old(jwObj[i]) && jwOK[i] == old(jwOK[i])
+
+//@ pure maxConc(rjc *execution.JobConfig) int64 = rjc.Spec.Concurrency.GetMaxConcurrency()
+//@ pure startAfterNs(rj *execution.Job) Int = ns(rj.Spec.StartPolicy.StartAfter.Time)
+//@ pure hasStartAfter(rj *execution.Job) bool = rj.Spec.StartPolicy != nil && rj.Spec.StartPolicy.StartAfter != nil && !rj.Spec.StartPolicy.StartAfter.Time.IsZero()
+
+// Decision table of the concurrency policies (C06) and the startAfter gate (C07); `clock` is the latest clock reading.
+//@ func PerConfigReconciler.canStartJob
+//@   tags C05, C06, C07
+//@   requires w != nil && rjc != nil && rj != nil && typeis(w.client, *JobControl) && unbox(w.client, *JobControl) != nil
+//@   modifies jwN, jwKind, jwObj, jwOK, clock, wakeN, wakeKey, wakeAfter
+//@   ensures [C07] never-before-startAfter: result0 ==> !(hasStartAfter(rj) && startAfterNs(rj) > clock)
+//@   ensures [C06,C07] not-due-arms-wakeup: wakeN <= old(wakeN) + 1 && (wakeN == old(wakeN) + 1 ==> !result0 && result1 == nil && jwN == old(jwN)
+//@        && hasStartAfter(rj) && startAfterNs(rj) > old(clock)
+//@        && wakeKey[old(wakeN)] == nsname(rjc.Namespace, rjc.Name) && wakeAfter[old(wakeN)] >= 1000000000
+//@        && (wakeAfter[old(wakeN)] >= startAfterNs(rj) - clock || wakeAfter[old(wakeN)] == 9223372036854775807))
+//@   ensures [C06,C07] waits-only-with-wakeup: hasStartAfter(rj) && startAfterNs(rj) > clock ==> wakeN == old(wakeN) + 1
+//@   ensures [C06] only-forbid-rejects: jwN <= old(jwN) + 1 && (jwN == old(jwN) + 1 ==> !result0 && isRejectWrite(old(jwN), rj)
+//@        && policyOf(rj) == execution.ConcurrencyPolicyForbid && activeCount + 1 > maxConc(rjc) && (result1 == nil) == jwOK[old(jwN)])
+//@   ensures [C06] forbid-rejects-when-full: result1 == nil && wakeN == old(wakeN) && policyOf(rj) == execution.ConcurrencyPolicyForbid && activeCount + 1 > maxConc(rjc) ==> jwN == old(jwN) + 1 && jwOK[old(jwN)]
+//@   ensures [C06] enqueue-waits-when-full: policyOf(rj) == execution.ConcurrencyPolicyEnqueue && activeCount + 1 > maxConc(rjc) ==> !result0 && jwN == old(jwN)
+//@   ensures [C05,C06] starts-only-below-limit: result0 && (policyOf(rj) == execution.ConcurrencyPolicyForbid || policyOf(rj) == execution.ConcurrencyPolicyEnqueue) ==> activeCount + 1 <= maxConc(rjc)
+//@   ensures [C06] otherwise-starts: result1 == nil && wakeN == old(wakeN) && jwN == old(jwN)
+//@        && !(policyOf(rj) == execution.ConcurrencyPolicyEnqueue && activeCount + 1 > maxConc(rjc)) ==> result0
+//@   ensures [C06] log-append-only: forall i int :: i < old(jwN) ==> jwKind[i] == old(jwKind[i]) && jwObj[i] == old(jwObj[i]) && jwOK[i] == old(jwOK[i])
+//@   ensures [C06] error-means-no-start: result1 != nil ==> !result0
